@@ -1013,6 +1013,12 @@ class Gen:
             elif x < 0.65:
                 o['fill'] = self.rng.choice(['', 'ab'])
             o['extend'] = self.rng.random() < 0.65
+            if self.rng.random() < 0.06 and self.room(3):
+                # the fill character as a formatted AnsiStr of one character
+                fs = self.do({'op': 'new', 'cls': 'A', 'text': self.rng.choice('*x-'), 'sets': [{'k': 'aset', 'v': '31'}], 'S': ['31']})
+                if fs['out'] == 'ok' and fs['res']:
+                    o.pop('fill', None)
+                    o['fill_src'] = fs['res'][0]
         e = self.do(o)
         if e['out'] == 'ok' and e['res'] and self.rng.random() < 0.7:
             self.probe_closed(e['res'][0], 'probe_pad_closed')
@@ -1623,8 +1629,9 @@ SEQ_ALPHA = ['1', '31', '1;31', '38;5;214', '1;38;5;214', '38;5;214;1', '4;58;5;
              '58;2;9;8;7;53', '10', '11;10', '91;39;34', '1;38;2;255;128;64;48;2;100;100;100', '1;3;4;5;7;9;21;31;41;53;58;5;200;97;107',
              '107', '1;107', '106;107;3', '38;2;255;255;255;48;2;0;0;0;58;2;128;128;128',
              '1;;3', ';1', '1;', '31;;1', ';', '38;5;;1', ';;', '4;;']
-SEQ_NONSGR = ['\x1b[2J', '\x1b[H', '\x1b[1;2H', '\x1b[K', '\x1b[>4;2m', '\x1b[?1m', '\x1b[=1;31m', '\x1b[<m']
-SEQ_OUT_OF_CLAIM = ['\x1b[38;7;1m', '\x1b[38;5;300m', '\x1b[1:2m', '\x1b[ 1m']
+SEQ_NONSGR = ['\x1b[2J', '\x1b[H', '\x1b[1;2H', '\x1b[K', '\x1b[>4;2m', '\x1b[?1m', '\x1b[=1;31m', '\x1b[<m',
+              '\x1b[1 m', '\x1b[1;31 m', '\x1b[+1m', '\x1b[-0m', '\x1b[ m', '\x1b[1 q']
+SEQ_OUT_OF_CLAIM = ['\x1b[38;7;1m', '\x1b[38;5;300m', '\x1b[1:2m']
 
 
 def random_sgr(rng):
@@ -1647,7 +1654,7 @@ def gen_parse_input(m, rng, job):
         elif x < 0.95:
             parts.append(rng.choice(SEQ_NONSGR))
         elif x < 0.975:
-            parts.append(rng.choice(['\x1b[1', '\x1b[', '\x1b[31;', '\x1b']))     # aborted by whatever comes next
+            parts.append(rng.choice(['\x1b[1', '\x1b[', '\x1b[31;', '\x1b', '\x1b[31\n', '\x1b[\t', '\x1b[1\u00e9', '\x1b[3\x7f']))     # aborted by whatever comes next
         else:
             parts.append(rng.choice(SEQ_OUT_OF_CLAIM))
     if rng.random() < 0.1:
